@@ -29,6 +29,7 @@ def opInDomain : Op → Bool
   /- `DeletedAt` exactly at the Unix epoch is persisted as "not deleted"; wall-clock deletion
      times are never 0 and lie within the int64 range -/
   | .setdel _ _ _ a => decide (0 < a) && decide (a ≤ MaxNanoTime)
+  | .pre _ to => decide (to ≤ MaxNanoTime)
   | _ => true
 
 /-- `[start, end)` contains `t` -/
